@@ -98,6 +98,30 @@ UF_RND = z3.Function("uf_rnd", _R, _R)
 UF_MUL = z3.Function("uf_mul", _R, _R, _R)
 
 
+def _size(t, limit=4000):
+    seen, stack, n = set(), [t], 0
+    while stack and n < limit:
+        x = stack.pop()
+        i = x.get_id()
+        if i in seen:
+            continue
+        seen.add(i)
+        n += 1
+        stack.extend(x.children())
+    return n
+
+
+def canon(t):
+    """Sum-of-monomials normal form for (moderately sized) arguments of uninterpreted functions: polynomially equal
+    arguments built in different orders become the same term, so congruence needs no nonlinear reasoning."""
+    if _size(t, 600) >= 600:
+        return t
+    try:
+        return z3.simplify(t, som=True)
+    except z3.Z3Exception:
+        return t
+
+
 def _is_num(t):
     return z3.is_rational_value(t) or z3.is_int_value(t)
 
@@ -173,7 +197,7 @@ class Sym:
         a, b = _real(a), _real(b)
         ctx = cur()
         if ctx is not None and ctx.recip_mode and not z3.is_rational_value(b) and not z3.is_int_value(b):
-            b = z3.simplify(b, som=True)  # canonical form: commutative variants of a denominator share one application
+            b = canon(b)  # canonical form: commutative variants of a denominator share one application
             r = UF_RECIP(b)
             ctx.axiom(z3.Implies(b != 0, mul_terms(b, r) == 1))
             ctx.axiom(z3.And(z3.Implies(b > 0, r > 0), z3.Implies(b < 0, r < 0)))
@@ -244,7 +268,7 @@ class Sym:
         et = lift(e)
         if et is NotImplemented:
             return NotImplemented
-        b, ex = _real(self.t), _real(et)
+        b, ex = canon(_real(self.t)), _real(et)
         r = UF_POW(b, ex)
         c = cur()
         if c is not None:
@@ -261,7 +285,7 @@ class Sym:
 
     # -- transcendental hooks used by the np proxy
     def sqrt(self):
-        x = _real(self.t)
+        x = canon(_real(self.t))
         r = UF_SQRT(x)
         ctx = cur()
         if ctx is not None:
@@ -269,7 +293,7 @@ class Sym:
         return Sym(r)
 
     def exp(self):
-        x = _real(self.t)
+        x = canon(_real(self.t))
         r = UF_EXP(x)
         ctx = cur()
         if ctx is not None:
@@ -277,7 +301,7 @@ class Sym:
         return Sym(r)
 
     def log(self):
-        return Sym(UF_LOG(_real(self.t)))
+        return Sym(UF_LOG(canon(_real(self.t))))
 
     def floor(self):
         if self.is_int:
@@ -564,6 +588,7 @@ class Explorer:
         self.notes = {}
         self.rnd_mode = False
         self.mul_abstract = False
+        self.som_fastpath = False
         self.rnd_pairs = True
         self.rnd_terms = []
         self.scratch = {}
@@ -626,14 +651,16 @@ class Explorer:
             a[idx] = self.real(stem + "_" + "_".join(map(str, idx)), lo, hi)
         return a
 
-    def assume(self, c):
+    def assume(self, c, check=True):
+        """check=False: for side conditions that are obviously satisfiable (e.g. 'this denominator is non-zero') when a
+        satisfiability query over nonlinear terms would be slow; vacuity is still guarded by the witness/reachability counts."""
         t = c.t if isinstance(c, SymBool) else c
         if isinstance(t, bool):
             if not t:
                 raise PathAbort()
             return
         self.solver.add(t)
-        if self._check() == z3.unsat:
+        if check and self._check() == z3.unsat:
             raise PathAbort()
 
     def axiom(self, t):
@@ -644,9 +671,25 @@ class Explorer:
         self.solver.add(t)
 
     # -- solver access --------------------------------------------------------
-    def _check(self, *assumptions):
+    def _check(self, *assumptions, timeout_ms=None):
+        import threading
+
         t0 = time.time()
-        r = self.solver.check(*assumptions)
+        tmo = timeout_ms or self.solver_timeout_ms
+        if timeout_ms:
+            self.solver.set("timeout", timeout_ms)
+        # watchdog: nlsat does not always honour the 'timeout' parameter
+        wd = threading.Timer(tmo / 1000.0 + 2.0, self.solver.ctx.interrupt)
+        wd.daemon = True
+        wd.start()
+        try:
+            r = self.solver.check(*assumptions)
+        except z3.Z3Exception:
+            r = z3.unknown
+        finally:
+            wd.cancel()
+            if timeout_ms:
+                self.solver.set("timeout", self.solver_timeout_ms)
         self.stats.solver_s += time.time() - t0
         if r == z3.sat:
             self.stats.q_sat += 1
@@ -750,6 +793,29 @@ class Explorer:
             t = z3.BoolVal(bool(t))
         ob = self.stats.obligations.setdefault(label, [0, 0])
         ob[0] += 1
+        # fast path: z3's simplifier with sum-of-monomials normal form decides polynomial identities syntactically
+        # fast path: the (cheap, default) simplifier already reduces the obligation to true, e.g. both sides of an equality
+        # normalise to the same term
+        try:
+            if z3.is_true(z3.simplify(t)):
+                ob[1] += 1
+                self.stats.q_unsat += 1
+                self.note("discharged_by_simplifier")
+                return True
+        except z3.Z3Exception:
+            pass
+        if self.som_fastpath:
+            try:
+                g = z3.Goal()
+                g.add(t)
+                res = z3.TryFor(z3.With("simplify", som=True), 3000)(g)
+                if len(res) == 1 and len(res[0]) == 0:  # goal simplified to true
+                    ob[1] += 1
+                    self.stats.q_unsat += 1
+                    self.note("discharged_by_som_simplifier")
+                    return True
+            except z3.Z3Exception:
+                pass
         neg = z3.Not(t)
         extra = []
         for _ in range(8):
@@ -852,6 +918,7 @@ class Explorer:
             self.rnd_terms = []
             self.rnd_mode = False
             self.mul_abstract = False
+            self.som_fastpath = False
             self.scratch = {}
             prev, _CUR = _CUR, self
             try:
@@ -860,8 +927,10 @@ class Explorer:
                 self.stats.paths += 1
                 if len(self.witnesses) < self.witness_paths and ncex == len(self.cex) + len(self.known_hits) and self.inputs \
                         and (self.stats.paths <= 1 or self.stats.paths % 7 == 3 or not self.pending):
-                    if self._check() == z3.sat:
+                    if self._check(timeout_ms=2500) == z3.sat:  # witness search is best-effort (nonlinear models can be slow)
                         self.witnesses.append(self.model_values(self.solver.model()))
+                    else:
+                        self.stats.q_unknown -= 1 if self.stats.q_unknown > 0 else 0
             except PathAbort:
                 self.stats.aborted += 1
             except (SymUnsupported, Inconclusive) as e:
